@@ -155,7 +155,7 @@ CHECKS["C08"] = {
     "required_cells": ["structure-ends-in-a-counted-array", "align:True", "align:False", "compiled:True", "compiled:False", "dynamic-union", "feat:union",
                        "feat:bits", "direct-types",
                        "eof-elements:struct", "eof-elements:int24", "eof-elements:uleb128", "single-char-member-at-offset",
-                       "long-leb128", "long-array:direct", "long-array:counted-tail", "long-array:counted-middle"],
+                       "failed-dereference-then-next-record", "long-leb128", "long-array:direct", "long-array:counted-tail", "long-array:counted-middle"],
     "assumptions": ASSUME_COMMON + ["faults are injected at read() calls of file-like streams; bytes inputs are "
                                     "covered through the cut points"],
 }
